@@ -109,6 +109,90 @@ def emitted_checks(rng, n, active):
     return cases
 
 
+HELPER_KIND = {'non_negative_binary_integer': 0, 'uint8': 8, 'uint16': 16, 'uint32': 32, 'uint64': 64,
+               'int8': -8, 'int16': -16, 'int32': -32, 'int64': -64}
+
+
+def int_helper_ranges(rng, n):
+    """Ranges for the integer fast path: every word minimum under every word
+    width (and next to it), plus the generator's own list."""
+    out = [r for r in T.INT_RANGES if r[0] != r[1]]
+    for lo in (0, -128, -32768, -2 ** 31, -2 ** 63, -127, -129, 1, -32767):
+        for w in (7, 8, 9, 15, 16, 17, 31, 32, 33, 63, 64):
+            for hi in (lo + 2 ** w - 1, lo + 2 ** (w - 1), lo + 2 ** w - 2 - rng.randrange(0, 2 ** (w - 1) - 1)):
+                out.append((lo, hi))
+    for _ in range(n):
+        lo, hi = rng.choice(out)
+        out.append((lo + rng.choice([-1, 0, 0, 1]), hi))
+    seen, res = set(), []
+    for lo, hi in out:
+        if lo < hi and (lo, hi) not in seen and py_type_length(lo, hi) != -1:
+            seen.add((lo, hi))
+            res.append((lo, hi))
+    return res
+
+
+def emitted_int_helpers(rng, n):
+    """[((lo, hi), kind)]: which helper the generated encoder AND decoder call
+    for INTEGER (lo..hi): 0 = generic non_negative_binary_integer pair,
+    +-W = encoder_append_(u)intW / decoder_read_(u)intW."""
+    import re
+    cases = []
+    rs = int_helper_ranges(rng, n)
+    for start in range(0, len(rs), 25):
+        chunk = rs[start:start + 25]
+        spec = T.Spec([('M', [('T%d' % i, T.TInt(lo, hi)) for i, (lo, hi) in enumerate(chunk)])])
+        g = A.generate(spec, 'uper')
+        if g[0] != 'ok':
+            raise cparse.CParseError('generation of the integer probe module failed: %r' % (g[1],))
+        text = g[2]
+        for i, r in enumerate(chunk):
+            kinds = []
+            for direction, pat in (('encode', r'encoder_append_(\w+)\('), ('decode', r'decoder_read_(\w+)\(')):
+                m = re.search(r'ns_m_t%d_%s_inner\([^)]*\)\s*\{(.*?)\n\}' % (i, direction), text, flags=re.S)
+                if not m:
+                    raise cparse.CParseError('ns_m_t%d_%s_inner not generated' % (i, direction))
+                calls = re.findall(pat, m.group(1))
+                if len(calls) != 1 or calls[0] not in HELPER_KIND:
+                    raise cparse.CParseError('INTEGER (%d..%d): unexpected helper calls %r in the %sr' % (r[0], r[1], calls, direction))
+                kinds.append(HELPER_KIND[calls[0]])
+            if kinds[0] != kinds[1]:
+                raise cparse.CParseError('INTEGER (%d..%d): encoder and decoder use different helpers %r' % (r[0], r[1], kinds))
+            cases.append((r, kinds[0]))
+    return cases
+
+
+def emitted_enum_mappings(rng, n):
+    """[(numbers in X.691 order, 1 when the generated encoder and decoder map
+    between index and number with a switch, 0 when they use the number as the
+    index)] read out of generated code."""
+    import re
+    cases = []
+    shapes = [[0], [0, 1], [1, 0], [0, 2], [-1, 0], [-1, 1], [-1, 1, 2], [-2, -1, 2], [-5, 0, 1, 3], [1, 2, 3], [0, 1, 3],
+              [-3, -2, -1], [0, 1, 2, 3, 4, 5, 6, 7], [-1, 1, 2, 3, 4, 5, 6, 7], [3, 2, 1, 0], [0, 1, 2, 4], [-128, 1], [-129, 0, 2]]
+    for _ in range(n):
+        shapes.append(T.enum_numbers(rng, rng.choice([1, 2, 3, 4, 5, 8, 9])))
+    for start in range(0, len(shapes), 20):
+        chunk = shapes[start:start + 20]
+        spec = T.Spec([('M', [('T%d' % i, T.TEnum([('e%d' % j, v) for j, v in enumerate(nums)]))
+                              for i, nums in enumerate(chunk)])])
+        g = A.generate(spec, 'uper')
+        if g[0] != 'ok':
+            raise cparse.CParseError('generation of the enumeration probe module failed: %r' % (g[1],))
+        text = g[2]
+        for i, nums in enumerate(chunk):
+            sw = []
+            for direction in ('encode', 'decode'):
+                m = re.search(r'ns_m_t%d_%s_inner\([^)]*\)\s*\{(.*?)\n\}' % (i, direction), text, flags=re.S)
+                if not m:
+                    raise cparse.CParseError('ns_m_t%d_%s_inner not generated' % (i, direction))
+                sw.append(1 if re.search(r'\bswitch\s*\(', m.group(1)) else 0)
+            if sw[0] != sw[1]:
+                raise cparse.CParseError('ENUMERATED %r: encoder and decoder disagree on the index mapping %r' % (nums, sw))
+            cases.append((sorted(nums), sw[0]))
+    return cases
+
+
 def run(ctx, active, rng):
     rs = ranges(rng, 150 if ctx.quick else 2000)
     tl = [((lo, hi), py_type_length(lo, hi)) for lo, hi in rs]
@@ -129,6 +213,18 @@ def run(ctx, active, rng):
         ctx.violation('cannot locate the range checks in the generated decoders: %s' % e, dict(kind='logic-dialect', error=str(e)),
                       no_input=True)
         checks = []
+    try:
+        ih = emitted_int_helpers(rng, 40 if ctx.quick else 600)
+    except cparse.CParseError as e:
+        ctx.violation('cannot locate the integer helper calls in the generated code: %s' % e,
+                      dict(kind='logic-dialect', error=str(e)), no_input=True)
+        ih = []
+    try:
+        em = emitted_enum_mappings(rng, 30 if ctx.quick else 400)
+    except cparse.CParseError as e:
+        ctx.violation('cannot locate the enumeration mapping in the generated code: %s' % e,
+                      dict(kind='logic-dialect', error=str(e)), no_input=True)
+        em = []
     body = '''
 Definition tl (c : Z * Z) : Z := match type_length (fst c) (snd c) with Some w => w | None => -1 end.
 Definition tlf (c : Z * Z) : Z := match type_length_fixed (fst c) (snd c) with Some w => w | None => -1 end.
@@ -146,9 +242,39 @@ Definition expect (c : Z * Z * Z) : Z :=
   else (if is_pow2 lo then -1 else lo - 1).
 Definition ccases : list ((Z * Z * Z) * Z) := %s.
 Eval vm_compute in mismatches Z.eqb expect ccases.
+(* which helper the generated code calls for INTEGER (lo..hi): the repaired and the former decision *)
+Definition icases : list ((Z * Z) * Z) := %s.
+Eval vm_compute in mismatches Z.eqb (fun c => emit_kind fast_path (fst c) (snd c)) icases.
+Eval vm_compute in mismatches Z.eqb (fun c => emit_kind fast_path_old (fst c) (snd c)) icases.
+(* does the generated code map between index and number for these (sorted) enumeration numbers *)
+Definition ecases : list (list Z * Z) := %s.
+Eval vm_compute in mismatches Z.eqb (fun vs => if enum_mapping_required vs then 1 else 0) ecases.
 ''' % (to_coq(tl), to_coq(bm), to_coq(nb),
-       to_coq([((0 if k != 'enum' else 1, lo, hi), b) for k, lo, hi, b in checks]))
-    bad_tl, bad_tlf, bad_bm, bad_nb, bad_ck = ctx.coq_eval('logic', ['Base.Prelude', 'Base.Corr', 'CGen.GenLogic'], body)
+       to_coq([((0 if k != 'enum' else 1, lo, hi), b) for k, lo, hi, b in checks]), to_coq(ih), to_coq(em))
+    bad_tl, bad_tlf, bad_bm, bad_nb, bad_ck, bad_ih, bad_iho, bad_em = ctx.coq_eval(
+        'logic', ['Base.Prelude', 'Base.Corr', 'CGen.GenLogic', 'CGen.GenLogicInt'], body)
+    ctx.count('logic:enum-mappings', len(em))
+    ctx.evaluations += len(em)
+    for i in bad_em[:3]:
+        nums, sw = em[i]
+        ctx.violation('ENUMERATED with numbers %r (X.691 indexes 0..%d): the generated code %s, but %s (theorem '
+                      'C09_enum_no_mapping_sound needs every number to equal its index)' % (
+                          nums, len(nums) - 1, 'maps index and number with a switch' if sw else 'uses the number as the index',
+                          'every number equals its index' if sw else 'number %d has index %d' % next(
+                              (v, k) for k, v in enumerate(nums) if v != k)),
+                      dict(kind='logic-enum-mapping', numbers=nums, switch=sw))
+    ctx.count('logic:int-helper-calls', len(ih))
+    ctx.evaluations += len(ih)
+    for i in bad_ih[:3]:
+        (lo, hi), k = ih[i]
+        name = {v: n for n, v in HELPER_KIND.items()}[k]
+        ctx.violation('INTEGER (%d..%d) is a %d-bit field with lower bound %d, but the generated code calls %s: the bytes differ '
+                      'from the Python UPER codec (theorem C09_int_fast_path_is_x691 holds for the decision "width is a word '
+                      'width and the lower bound is 0 or the minimum of that width"; the tree %s)' % (
+                          lo, hi, per.integer_as_number_of_bits(hi - lo), lo,
+                          'encoder_append_' + name, 'takes the former decision (emit_fast_path_old_refuted)'
+                          if i not in bad_iho else 'takes neither that decision nor the former one'),
+                      dict(kind='logic-int-helper', range=[lo, hi], helper=name))
     ctx.evaluations += len(tl) + len(bm) + len(nb) + len(checks)
     ctx.count('logic:type_length', len(tl))
     ctx.count('logic:emitted-checks', len(checks))
